@@ -40,9 +40,14 @@ CHECKS = {
                   "sequences; each is rendered to real ini files, the real arbiter is booted from the first "
                   "version on the sim binding, every edit goes through the real reloadconfig request, and the "
                   "result is compared with a second, fresh arbiter booted on the same file and with the pid sets "
-                  "before/after.",
-                  "explicit TLA+ specification (ReloadConfig.tla) model-checked with TLC; TLC edit sequences "
-                  "replayed on the real arbiter (sim binding), fresh-start oracle"),
+                  "before/after.  Schedule half: Core.tla models reload_from_config itself (three set loops, "
+                  "setnp / delete / add-then-register); TLC checks C12_conv / C12_keep (Monitors.tla) on every "
+                  "interleaving of one or two reloads, a read-only request and a worker death, evaluates the same "
+                  "clauses on recorded file-mode scenarios (reloads with deaths, periodic checks, requests in "
+                  "between) and validates those traces against Core.",
+                  "explicit TLA+ specifications (ReloadConfig.tla; Core.tla + Monitors.tla) model-checked with TLC; "
+                  "TLC edit sequences replayed on the real arbiter (sim binding) with a fresh-start oracle; TLC "
+                  "trace validation of recorded reload schedules (TraceMon / TraceCore)"),
     "C16": _entry("C16",
                   "ConfigEnv.tla defines the documented meaning of a configuration file (typed options, env "
                   "layering, expansion); TLC enumerates all abstract files within the bounds and emits the expected "
